@@ -24,6 +24,8 @@ import (
 	"fmt"
 	"os"
 	"runtime"
+	"runtime/debug"
+	"runtime/pprof"
 	"sort"
 	"strings"
 	"sync"
@@ -37,9 +39,9 @@ import (
 	pebblev1 "github.com/NethermindEth/juno/db/pebble"
 	"github.com/NethermindEth/juno/db/pebblev2"
 	p1 "github.com/cockroachdb/pebble"
-	vfs1 "github.com/cockroachdb/pebble/vfs"
 	p2 "github.com/cockroachdb/pebble/v2"
 	vfs2 "github.com/cockroachdb/pebble/v2/vfs"
+	vfs1 "github.com/cockroachdb/pebble/vfs"
 )
 
 // ---------------------------------------------------------------------------------------------
@@ -131,30 +133,44 @@ func prefixBytes(p string) []byte {
 	return []byte(p)
 }
 
-// observe performs the point reads and the full listing on a reader; one line per call.
-func observe(r db.KeyValueReader, bufferBatchOnly bool) obs {
+// what an observation consists of (the model mirrors it exactly)
+const (
+	oGet     = 1 << iota // Get of every key with a succeeding callback
+	oGetFail             // Get of every key with a failing callback
+	oHas                 // Has of every key
+	oIter                // full listing through NewIterator(nil,false) First/Next
+	oAll     = oGet | oGetFail | oHas | oIter
+	oRead    = oGet | oHas | oIter
+)
+
+// observe performs the selected reads on a reader; one line per call.
+func observe(r db.KeyValueReader, what int) obs {
 	o := make(obs, 0, 3*len(K)+1)
 	for _, k := range K {
 		kb := []byte(k)
-		o = append(o, "Get("+hx(k)+")="+guardStr(func() string {
-			var got []byte
-			called := 0
-			err := r.Get(kb, func(v []byte) error { called++; got = append([]byte{}, v...); return nil })
-			if err == nil {
-				if called != 1 {
-					return fmt.Sprintf("ok-but-callback-called-%d-times", called)
+		if what&oGet != 0 {
+			o = append(o, "Get("+hx(k)+")="+guardStr(func() string {
+				var got []byte
+				called := 0
+				err := r.Get(kb, func(v []byte) error { called++; got = append([]byte{}, v...); return nil })
+				if err == nil {
+					if called != 1 {
+						return fmt.Sprintf("ok-but-callback-called-%d-times", called)
+					}
+					return "ok:" + hx(string(got))
 				}
-				return "ok:" + hx(string(got))
-			}
-			if called != 0 {
-				return "callback-called-and-" + cls(err)
-			}
-			return cls(err)
-		}))
-		o = append(o, "GetCbFail("+hx(k)+")="+guardStr(func() string {
-			return cls(r.Get(kb, func([]byte) error { return errCB }))
-		}))
-		if !bufferBatchOnly {
+				if called != 0 {
+					return "callback-called-and-" + cls(err)
+				}
+				return cls(err)
+			}))
+		}
+		if what&oGetFail != 0 {
+			o = append(o, "GetCbFail("+hx(k)+")="+guardStr(func() string {
+				return cls(r.Get(kb, func([]byte) error { return errCB }))
+			}))
+		}
+		if what&oHas != 0 {
 			o = append(o, "Has("+hx(k)+")="+guardStr(func() string {
 				ok, err := r.Has(kb)
 				if err != nil {
@@ -164,7 +180,7 @@ func observe(r db.KeyValueReader, bufferBatchOnly bool) obs {
 			}))
 		}
 	}
-	if !bufferBatchOnly {
+	if what&oIter != 0 {
 		o = append(o, "Iterate="+guardStr(func() string {
 			it, err := r.NewIterator(nil, false)
 			if err != nil {
@@ -223,7 +239,7 @@ type rep struct {
 	opens  int64
 }
 
-const maxWritesPerDB = 120 // re-open before version chains / tombstones make pebble iteration slow
+const maxWritesPerDB = 400 // re-open before version chains / tombstones make pebble iteration slow
 
 func (p *rep) drop() {
 	if p.d != nil {
@@ -309,7 +325,6 @@ func (c *checker) outcome(l string, n int64) {
 	atomic.AddInt64(v.(*int64), n)
 }
 
-
 // diffLines compares two observation lists line by line. One already classified defect class is
 // stepped over so that it cannot mask anything else: Has() of a missing key on a pebble snapshot
 // returns the raw pebble.ErrNotFound instead of (false, nil). It is reported under its own coarse key
@@ -371,6 +386,24 @@ var wmodes = []wmode{
 	{name: "bufferbatch-commit", batch: true, indexed: true, commits: true, wrap: "buffer", pdOnly: true},
 }
 
+// Reads per stage (kept small: a pebble Get costs ~1µs of CPU and there are millions of transitions):
+// before the commit only the listing of the store; the indexed view with Get+Has+listing; the final
+// store with Get+Has+listing (plus Get with a failing callback in mode "direct"); the snapshot taken
+// before the op with Has+listing (its Get / failing-callback Get are exercised in section C).
+func viewWhat(m wmode) int {
+	if m.wrap == "buffer" {
+		return oGet | oGetFail // db.BufferBatch panics on Has/NewIterator by design
+	}
+	return oRead
+}
+
+func afterWhat(m wmode) int {
+	if !m.batch {
+		return oAll
+	}
+	return oRead
+}
+
 func modelTransition(s state, m wmode, op wop) (obs, state) {
 	after := s.clone()
 	op.apply(after)
@@ -386,9 +419,9 @@ func modelTransition(s state, m wmode, op wop) (obs, state) {
 				o = append(o, fmt.Sprintf("size=%d", n))
 			}
 		}
-		o = append(o, prefixed("before-commit", modelObserve(s, false))...)
+		o = append(o, prefixed("before-commit", modelObserve(s, oIter))...)
 		if m.indexed {
-			o = append(o, prefixed("view", modelObserve(after, m.wrap == "buffer"))...)
+			o = append(o, prefixed("view", modelObserve(after, viewWhat(m)))...)
 		}
 		if m.failing {
 			o = append(o, "end=cberr")
@@ -396,8 +429,8 @@ func modelTransition(s state, m wmode, op wop) (obs, state) {
 			o = append(o, "end=ok")
 		}
 	}
-	o = append(o, prefixed("after", modelObserve(post, false))...)
-	o = append(o, prefixed("snapshot", modelObserve(s, false))...)
+	o = append(o, prefixed("after", modelObserve(post, afterWhat(m)))...)
+	o = append(o, prefixed("snapshot", modelObserve(s, oHas|oIter))...)
 	o = append(o, "snapshot-close=ok")
 	return o, post
 }
@@ -416,9 +449,9 @@ func execTransition(d db.KeyValueStore, m wmode, op wop) (o obs) {
 				o = append(o, fmt.Sprintf("size=%d", sizer.Size()))
 			}
 		}
-		o = append(o, prefixed("before-commit", observe(d, false))...)
+		o = append(o, prefixed("before-commit", observe(d, oIter))...)
 		if reader != nil {
-			o = append(o, prefixed("view", observe(reader, m.wrap == "buffer"))...)
+			o = append(o, prefixed("view", observe(reader, viewWhat(m)))...)
 		}
 	}
 	switch {
@@ -454,8 +487,8 @@ func execTransition(d db.KeyValueStore, m wmode, op wop) (o obs) {
 			}
 			return b.Delete([]byte(op.a))
 		}()))
-		o = append(o, prefixed("before-commit", observe(d, false))...)
-		o = append(o, prefixed("view", observe(b, true))...)
+		o = append(o, prefixed("before-commit", observe(d, oIter))...)
+		o = append(o, prefixed("view", observe(b, viewWhat(m)))...)
 		o = append(o, "end="+cls(b.Write()))
 	default:
 		var b db.Batch
@@ -479,13 +512,33 @@ func execTransition(d db.KeyValueStore, m wmode, op wop) (o obs) {
 			o = append(o, "end="+cls(b.Close()))
 		}
 	}
-	o = append(o, prefixed("after", observe(d, false))...)
-	o = append(o, prefixed("snapshot", observe(snap, false))...)
+	o = append(o, prefixed("after", observe(d, afterWhat(m)))...)
+	o = append(o, prefixed("snapshot", observe(snap, oHas|oIter))...)
 	o = append(o, "snapshot-close="+cls(snap.Close()))
 	return o
 }
 
-func (c *checker) sectionA(maxKeys int) {
+// sectionA expands every reachable map with ≤ fullKeys keys, and of the maps with fullKeys < n ≤ repKeys
+// keys one representative per key set (the value of a key fixed by its index in K). Successors outside
+// that set are still produced, executed and compared as transition targets; they are just not expanded.
+func (c *checker) sectionA(fullKeys, repKeys int) {
+	isRep := func(st state) bool {
+		for i, k := range K {
+			if v, ok := st[k]; ok && v != V[i%len(V)] {
+				return false
+			}
+		}
+		return true
+	}
+	expand := func(st state) bool {
+		return len(st) <= fullKeys || (len(st) <= repKeys && isRep(st))
+	}
+	expected := countStates(fullKeys)
+	for _, ks := range keySets(repKeys) {
+		if len(ks) > fullKeys {
+			expected++
+		}
+	}
 	r := c.r
 	ops := singleOps(K, V)
 	var pdOps []wop
@@ -573,7 +626,7 @@ func (c *checker) sectionA(maxKeys int) {
 				if _, ok := seen[cn]; ok {
 					continue
 				}
-				if len(st) > maxKeys {
+				if !expand(st) {
 					beyond++
 					seen[cn] = -1
 					continue
@@ -602,15 +655,16 @@ func (c *checker) sectionA(maxKeys int) {
 	r.Add("transitions", transitions)
 	r.Add("traces_validated_against_impl", execs)
 	r.Set("A_states_reachable", int64(reach))
-	r.Set("A_states_expected_all_maps", int64(countStates(maxKeys)))
+	r.Set("A_states_expected", int64(expected))
 	r.Set("A_states_beyond_bound_seen_not_expanded", beyond)
 	r.Set("A_bfs_depth", int64(depth))
 	r.Set("A_transitions", transitions)
 	r.Set("A_backend_executions", execs)
 	r.Set("A_backend_opens", opens)
-	r.Set("A_max_keys", int64(maxKeys))
-	if reach != countStates(maxKeys) && len(frontier) == 0 {
-		r.Infra("BFS reached %d states, expected %d", reach, countStates(maxKeys))
+	r.Set("A_all_maps_up_to_keys", int64(fullKeys))
+	r.Set("A_one_map_per_key_set_up_to_keys", int64(repKeys))
+	if reach != expected && len(frontier) == 0 {
+		r.Infra("BFS reached %d states, expected %d", reach, expected)
 	}
 }
 
@@ -618,9 +672,10 @@ func (c *checker) sectionA(maxKeys int) {
 // section B: op sequences inside one batch, read-your-writes, interleaved direct writer
 
 type bcase struct {
-	indexed bool
-	ops     []wop
-	extern  *wop // direct write by another writer after the ops were recorded, before the commit
+	fullPair bool
+	indexed  bool
+	ops      []wop
+	extern   *wop // direct write by another writer after the ops were recorded, before the commit
 }
 
 func (b bcase) label() string {
@@ -639,13 +694,21 @@ func (b bcase) label() string {
 	return fmt.Sprintf("kind=%s ops=%s extern=%s", kind, kinds, ex)
 }
 
+// read-your-writes: listing after every op, Get+Has+listing after the last one
+func bViewWhat(i, n int) int {
+	if i == n-1 {
+		return oRead
+	}
+	return oIter
+}
+
 func modelBatch(s state, b bcase) (obs, state) {
 	var o obs
 	cur := s.clone() // the store
 	for i := range b.ops {
 		o = append(o, fmt.Sprintf("op%d=ok", i))
 		if b.indexed {
-			o = append(o, prefixed(fmt.Sprintf("view%d", i), modelObserve(applyAll(cur, b.ops[:i+1]), false))...)
+			o = append(o, prefixed(fmt.Sprintf("view%d", i), modelObserve(applyAll(cur, b.ops[:i+1]), bViewWhat(i, len(b.ops))))...)
 		}
 	}
 	if n, ok := batchSize(b.ops); ok {
@@ -656,13 +719,13 @@ func modelBatch(s state, b bcase) (obs, state) {
 		b.extern.apply(cur)
 		if b.indexed {
 			// an indexed batch reads "from the batch and the disk": the disk as it is now
-			o = append(o, prefixed("view-after-extern", modelObserve(applyAll(cur, b.ops), false))...)
+			o = append(o, prefixed("view-after-extern", modelObserve(applyAll(cur, b.ops), oRead))...)
 		}
 	}
-	o = append(o, prefixed("before-commit", modelObserve(cur, false))...)
+	o = append(o, prefixed("before-commit", modelObserve(cur, oIter))...)
 	o = append(o, "end=ok")
 	post := applyAll(cur, b.ops) // the batch is an ordered log applied atomically at commit time
-	o = append(o, prefixed("after", modelObserve(post, false))...)
+	o = append(o, prefixed("after", modelObserve(post, oGet|oIter))...)
 	return o, post
 }
 
@@ -683,7 +746,7 @@ func execBatch(d db.KeyValueStore, b bcase) (o obs) {
 	for i, op := range b.ops {
 		o = append(o, fmt.Sprintf("op%d=%s", i, cls(op.on(bt))))
 		if reader != nil {
-			o = append(o, prefixed(fmt.Sprintf("view%d", i), observe(reader, false))...)
+			o = append(o, prefixed(fmt.Sprintf("view%d", i), observe(reader, bViewWhat(i, len(b.ops))))...)
 		}
 	}
 	if _, ok := batchSize(b.ops); ok {
@@ -692,16 +755,18 @@ func execBatch(d db.KeyValueStore, b bcase) (o obs) {
 	if b.extern != nil {
 		o = append(o, "extern="+cls(b.extern.on(d)))
 		if reader != nil {
-			o = append(o, prefixed("view-after-extern", observe(reader, false))...)
+			o = append(o, prefixed("view-after-extern", observe(reader, oRead))...)
 		}
 	}
-	o = append(o, prefixed("before-commit", observe(d, false))...)
+	o = append(o, prefixed("before-commit", observe(d, oIter))...)
 	o = append(o, "end="+cls(bt.Write()))
-	o = append(o, prefixed("after", observe(d, false))...)
+	o = append(o, prefixed("after", observe(d, oGet|oIter))...)
 	return o
 }
 
-func (c *checker) sectionB(states []state, tripleKeys, tripleVals []string) {
+// sectionB: from every base state, every batch case; the all-pairs-over-the-full-alphabet cases only from
+// base states with ≤ pairKeys keys.
+func (c *checker) sectionB(states []state, pairKeys int, tripleKeys, tripleVals []string) {
 	r := c.r
 	full := singleOps(K, V)
 	small := singleOps(tripleKeys, tripleVals)
@@ -709,7 +774,7 @@ func (c *checker) sectionB(states []state, tripleKeys, tripleVals []string) {
 	for _, indexed := range []bool{false, true} {
 		for _, a := range full {
 			for _, b := range full {
-				cases = append(cases, bcase{indexed: indexed, ops: []wop{a, b}})
+				cases = append(cases, bcase{indexed: indexed, ops: []wop{a, b}, fullPair: true})
 			}
 		}
 		for _, a := range small {
@@ -729,7 +794,7 @@ func (c *checker) sectionB(states []state, tripleKeys, tripleVals []string) {
 			}
 		}
 	}
-	var execs, opens, cut int64
+	var execs, opens, cut, ncases int64
 	ev.Par(len(states), c.procs, func(i int) {
 		if r.OutOfTime() {
 			atomic.AddInt64(&cut, 1)
@@ -739,12 +804,19 @@ func (c *checker) sectionB(states []state, tripleKeys, tripleVals []string) {
 		wants := make([]obs, len(cases))
 		posts := make([]state, len(cases))
 		for ci, bc := range cases {
+			if bc.fullPair && len(s) > pairKeys {
+				continue
+			}
 			wants[ci], posts[ci] = modelBatch(s, bc)
+			atomic.AddInt64(&ncases, 1)
 			c.outcome("B "+bc.label(), 1)
 		}
 		for _, be := range backends {
 			p := &rep{be: be}
 			for ci, bc := range cases {
+				if wants[ci] == nil {
+					continue
+				}
 				p.ensure(s)
 				got := execBatch(p.d, bc)
 				p.writes += len(bc.ops) + 1
@@ -781,7 +853,9 @@ func (c *checker) sectionB(states []state, tripleKeys, tripleVals []string) {
 	if cut > 0 {
 		r.Incomplete(fmt.Sprintf("section B: %d of %d base states skipped (time budget)", cut, len(states)))
 	}
-	r.Add("transitions", int64(len(cases))*(int64(len(states))-cut))
+	r.Add("transitions", ncases)
+	r.Set("B_batch_cases", ncases)
+	r.Set("B_all_pairs_only_from_states_with_keys_up_to", int64(pairKeys))
 	r.Add("traces_validated_against_impl", execs)
 	r.Set("B_base_states", int64(len(states)))
 	r.Set("B_batch_cases_per_state", int64(len(cases)))
@@ -915,7 +989,7 @@ func situation(keys []string, vals state, prog []int, i int) string {
 	return moveKind(prog[i]) + "@" + where
 }
 
-func (c *checker) sectionC(sets []state, maxLen, maxLenWrite int) {
+func (c *checker) sectionC(sets []state, maxLen, maxLenViews, maxLenWrite int) {
 	r := c.r
 	progs := allPrograms(maxLen)
 	var wprogs [][]int
@@ -976,9 +1050,9 @@ func (c *checker) sectionC(sets []state, maxLen, maxLenWrite int) {
 			bs.wdb = &rep{be: be}
 			setups = append(setups, bs)
 			// point reads on the three views
-			want := modelObserve(s, false)
+			want := modelObserve(s, oAll)
 			for _, src := range bs.sources {
-				got := observe(src.reader, false)
+				got := observe(src.reader, oAll)
 				atomic.AddInt64(&execs, 1)
 				cctx := func() map[string]any {
 					return map[string]any{"view_contents": s.canon(), "source": src.name}
@@ -1019,7 +1093,7 @@ func (c *checker) sectionC(sets []state, maxLen, maxLenWrite int) {
 				if strings.Join(mk, "\x01") != strings.Join(keys, "\x01") || len(mk) != len(keys) {
 					alt, altCore := modelProgram(mk, s, prog)
 					explained := true
-					for j := 0; j <= i; j++ {
+					for j := range prog { // the whole program must agree with the alternative reading
 						if altCore[j] && line(got, j) != alt[j] {
 							explained = false
 						}
@@ -1062,6 +1136,9 @@ func (c *checker) sectionC(sets []state, maxLen, maxLenWrite int) {
 				}
 				for _, bs := range setups {
 					for _, src := range bs.sources {
+						if src.name != "db" && len(prog) > maxLenViews {
+							continue
+						}
 						rd := src.reader
 						got := runProgram(func() (db.Iterator, error) { return rd.NewIterator(pb, cf.ub) }, prog, -1, nil)
 						compare(bs.be, src.name, cf, keys, prog, want, core, got)
@@ -1101,6 +1178,9 @@ func (c *checker) sectionC(sets []state, maxLen, maxLenWrite int) {
 	r.Set("C_key_sets", int64(len(sets)))
 	r.Set("C_iterator_configs", int64(len(cfgs)))
 	r.Set("C_programs_per_config", int64(len(progs)))
+	r.Set("C_max_moves_db_source", int64(maxLen))
+	r.Set("C_max_moves_snapshot_and_ibatch_sources", int64(maxLenViews))
+	r.Set("C_max_moves_with_injected_write", int64(maxLenWrite))
 	r.Set("C_programs_with_injected_write_per_config", int64(countWriteRuns(wprogs)))
 	r.Set("C_model_programs", programs)
 	r.Set("C_backend_program_runs", execs)
@@ -1225,10 +1305,17 @@ func (c *checker) sectionD() {
 // ---------------------------------------------------------------------------------------------
 
 func TestCheck(t *testing.T) {
+	// the live heap is tiny and the garbage rate huge (pebble's Get allocates); a rare GC halves the CPU cost
+	debug.SetGCPercent(1600)
 	r := ev.Start("C15", "model_checking")
 	r.SetBudget(ev.Pick(r, 150, 1620))
 	c := &checker{r: r, viol: newCollector(), ext: newCollector(), procs: runtime.NumCPU()}
 
+	if pf := os.Getenv("C15_PROF"); pf != "" { // development only
+		f, _ := os.Create(pf)
+		pprof.StartCPUProfile(f)
+		defer pprof.StopCPUProfile()
+	}
 	// development knob only (bin/check never sets it): restrict to some sections
 	only := os.Getenv("C15_SECTIONS")
 	want := func(x string) bool { return only == "" || strings.Contains(only, x) }
@@ -1236,9 +1323,10 @@ func TestCheck(t *testing.T) {
 		r.Incomplete("C15_SECTIONS=" + only)
 	}
 
-	maxKeysA := ev.Pick(r, 3, 5)
 	if want("A") {
-		c.sectionA(maxKeysA)
+		// quick: all maps with ≤ 2 keys + one map per 3-key set; thorough: all maps with ≤ 4 keys + one
+		// map per key set of 5..8 keys
+		c.sectionA(ev.Pick(r, 2, 4), ev.Pick(r, 3, len(K)))
 	}
 
 	// B: base states; quick: key sets of ≤ 2 keys, thorough: every map of ≤ 2 keys
@@ -1253,16 +1341,16 @@ func TestCheck(t *testing.T) {
 		tk, tv = []string{"a", "ab", "a\xff", "b"}, []string{"x", "y"}
 	}
 	if want("B") {
-		c.sectionB(bStates, tk, tv)
+		c.sectionB(bStates, ev.Pick(r, 1, 2), tk, tv)
 	}
 
 	// C: quick: key sets of ≤ 3 keys, programs ≤ 3 moves (≤ 2 with an injected write);
 	//    thorough: all 256 key sets with ≤ 3 moves, then key sets of ≤ 3 keys with ≤ 4 moves
 	if !want("C") {
 	} else if r.Quick() {
-		c.sectionC(keySets(3), 3, 2)
+		c.sectionC(keySets(3), 3, 2, 2)
 	} else {
-		c.sectionC(keySets(len(K)), 3, 3)
+		c.sectionC(keySets(len(K)), 3, 3, 3)
 		c.sectionC4(keySets(3))
 	}
 	if want("D") {
@@ -1303,6 +1391,7 @@ func TestCheck(t *testing.T) {
 		"schedules are interleavings of whole interface calls (each call is linearizable); goroutine-level races are out of scope",
 		"relative moves (Next/Prev) on an exhausted iterator other than Prev-after-failed-Seek and the first move of a fresh iterator are outside the documented contract: recorded under outside_contract_divergences, never a violation",
 		"Batch.Size() is compared only for batches without DeleteRange")
+	pprof.StopCPUProfile()
 	r.Finish()
 }
 
@@ -1314,7 +1403,7 @@ func (c *checker) sectionC4(sets []state) {
 	for _, k := range []string{"C_key_sets", "C_programs_per_config", "C_model_programs", "C_backend_program_runs", "C_steps_inside_contract", "C_steps_outside_contract", "C_programs_with_injected_write_per_config", "C_iterator_configs"} {
 		prev[k] = saveSet(k)
 	}
-	c.sectionC(sets, 4, 0)
+	c.sectionC(sets, 4, 4, 0)
 	for k, v := range prev {
 		c.r.Set("C4_"+strings.TrimPrefix(k, "C_"), c.r.Get(k))
 		c.r.Set(k, v)
